@@ -676,7 +676,31 @@ def c05_12(ctx):
     return mutable_default_obligation(ctx, ["tx", "witness", "script"], "filling in one input's witness changes what sig_hash reads for the others")
 
 
+def c05_13(ctx):
+    """MEMO: no method of the modules this property is anchored in answers from a value remembered from an earlier argument or an
+    earlier state of the object (confirmed caches of the reference tree: sa/memo.py CONFIRMED_CACHES)"""
+    from sa.memo import cache_obligation
+    return cache_obligation(ctx, ["tx", "witness", "taproot", "phash"], "a signature hash (or one of its parts) computed once would be returned for other fields, inputs or hash types")
+
+
+def c05_14(ctx):
+    """SET-ORDER: no ordered result (list, serialisation, yielded sequence) of the modules this property is anchored in takes its
+    order from the iteration order of a set"""
+    from sa.setorder import setorder_obligation
+    return setorder_obligation(ctx, ["tx", "witness", "taproot", "phash"], "the same inputs give different output from run to run")
+
+
+def c05_15(ctx):
+    """SHARED necessary conditions over the modules this property is anchored in: FALSY-DEFAULT, MUTABLE-DEFAULT, IDENTITY, ALIAS,
+    CTOR-FORWARD (sa/shared.py)"""
+    from sa.shared import shared_obligations
+    return shared_obligations(ctx, ["tx", "witness", "taproot", "phash"], "the result would depend on something other than the arguments and the object's current state")
+
+
 OBLIGATIONS = [
+    ("C05.15", "SHARED", c05_15),
+    ("C05.14", "SET-ORDER", c05_14),
+    ("C05.13", "MEMO", c05_13),
     ("C05.1", "COUNT", c05_1),
     ("C05.2", "LAYOUT vs spec", c05_2),
     ("C05.3", "LAYOUT vs spec", c05_3),
